@@ -54,7 +54,7 @@ def model_emit(q):
         cfg = mc_cfg("IsolationMC_cex_%d_%d.cfg" % (n, depth), n, depth, 0, True, (False, False, True),
                      "CONSTRAINT DepthBound\nACTION_CONSTRAINT CexEmit\nVIEW View")
         r = vc.run_tlc("IsolationMC", cfg=cfg, timeout=900, heap="8g", workers=1, tag="IsoCex%d" % n, extra=["-noGenerateSpecTE"])
-        r.scope = {"what": "every first P1 violation (code as it is, table races masked)", "N": n, "calls": depth - 2}
+        r.scope = {"what": "every first P1 violation (design before the repairs 39fd106 157e30a, table races masked)", "N": n, "calls": depth - 2}
         ops = gi.mc_ops(r.out)
         if ops:
             out["ops"][n] = ops
@@ -78,7 +78,7 @@ def model_verify(q):
     runs = []
     cfg = mc_cfg("IsolationMC_asis.cfg", 2, 8, 0, False, (False, False, False), "INVARIANT NoBadP1\nCONSTRAINT DepthBound\nVIEW View")
     r = vc.run_tlc("IsolationMC", cfg=cfg, timeout=900, heap="8g", workers=1, tag="IsoAsIs", extra=["-noGenerateSpecTE"])
-    r.scope = {"model": "code as it is", "N": 2, "invariant": "P1", "expected": "violated"}
+    r.scope = {"model": "design before the repairs 39fd106 157e30a (chip_type and lfotable shared)", "N": 2, "invariant": "P1", "expected": "violated"}
     m = re.findall(r"hist = <<([0-9, ]*)>>", r.out)
     r.cex = [int(x) for x in m[-1].split(",")] if (m and r.violation) else None
     runs.append(r)
@@ -202,10 +202,10 @@ def check_c14(pid, tier, replay):
     if asis.violation:
         ops2 = em["ops"].get(2)
         cx = [ops2[j - 1] for j in asis.cex] if (asis.cex and ops2) else asis.cex
-        print("MODEL: spec/IsolationMC (code as it is) violates P1; shortest counterexample %s; replayed on the library with %d further model counterexamples: %d calls with predicted interference, %d confirmed"
+        print("MODEL: spec/IsolationMC with the chip_type and lfotable repairs switched off (the design before 39fd106 157e30a) violates P1 as expected; shortest counterexample %s; replayed on the library with %d further model counterexamples: %d calls with predicted interference, %d confirmed"
               % (json.dumps(cx, separators=(",", ":")), len(cex_h), counters.get("predicted", 0), counters.get("confirmed", 0)))
         if counters.get("predicted", 0) and not counters.get("confirmed", 0):
-            print("MODEL-DRIFT: the model (code as it is) predicts interference through nuked.chip_type / np2.lfotable but no execution of the library shows it (repaired tree? flip FixChipType / FixLfoTable in spec/IsolationTrace.cfg)")
+            print("MODEL-DRIFT: the unrepaired model predicts interference through nuked.chip_type / np2.lfotable but no execution of the library shows it (repaired tree? flip FixChipType / FixLfoTable in spec/IsolationTrace.cfg)")
     elif not asis.ok:
         print("MODEL-DRIFT: IsolationMC as-is run failed: rc=%s %s" % (asis.rc, asis.out[-400:]))
     for r in mruns[1:]:
